@@ -851,6 +851,11 @@ func deadlineFor(c TCase, tier string) time.Duration {
 	if tier == "thorough" {
 		d = 4 * time.Second
 	}
+	if tier == "recheck" {
+		// a deadline hit that no finding explains is re-run ALONE before it counts: a hang is infinite, a slow
+		// start of the child process on a loaded machine is not (load averages above 150 have been seen)
+		d = 45 * time.Second
+	}
 	return d + time.Duration(c.N*c.N*c.N)*2*time.Millisecond
 }
 
